@@ -170,6 +170,25 @@ pub fn items(tier: Tier, id: &str) -> Vec<Item> {
             Item { cfgs: vec![c], f32_too }
         })
         .collect();
+    if id == "C06" && tier == Tier::Quick {
+        // the quick lattice has Cubic and Linear only: every interpolation arm has its own copy
+        // of the position/ramp stepping
+        let mut cfgs = Vec::new();
+        for kind in [Kind::SI, Kind::SO] {
+            for interp in [Interp::Quadratic, Interp::Nearest] {
+                for ratio in [0.5, 1.0, 2.0] {
+                    for m in [2.0, 10.0] {
+                        for chunk in [1usize, 8, 64] {
+                            cfgs.push(Cfg::sinc(kind, ratio, m, chunk, 8, 2, interp, Kernel::Probe).with_channels(if chunk == 8 { 2 } else { 1 }));
+                        }
+                    }
+                }
+            }
+        }
+        for c in cfgs.chunks(1) {
+            out.push(Item { cfgs: c.to_vec(), f32_too: false });
+        }
+    }
     if id == "C10" || id == "C17" {
         // adversarial ratios: chunk/ratio lands within rounding distance of an integer, where
         // differently written formulas for the needed input size disagree
@@ -609,6 +628,168 @@ fn outcome_json(cfg: &Cfg, o: &Outcome, ty: &str) -> Value {
     })
 }
 
+/// Resamplers with zero channels (the constructors accept the count): every documented
+/// operation on empty channel lists, compared with a one-channel twin - same Ok/Err class, same
+/// frame counts, no panic. (The engines index channels freely, so this degenerate width gets a
+/// scripted walk of its own instead of a place in the lattices.)
+pub fn zero_channel_item(prop: &'static str) -> Result<Value, String> {
+    use std::panic::{catch_unwind, AssertUnwindSafe};
+    crate::run::install_panic_hook();
+    let mut cfgs: Vec<Cfg> = vec![
+        Cfg::sinc(Kind::SI, 0.8, 2.0, 8, 8, 2, Interp::Cubic, Kernel::Dispatch),
+        Cfg::sinc(Kind::SO, 0.8, 2.0, 8, 8, 2, Interp::Quadratic, Kernel::Dispatch),
+        Cfg::sinc(Kind::SO, 1.2, 2.0, 64, 16, 4, Interp::Linear, Kernel::Scalar),
+        Cfg::fast(Kind::FI, 0.8, 2.0, 8, Degree::Cubic),
+        Cfg::fast(Kind::FI, 48000.0 / 44100.0, 1.1, 1024, Degree::Septic),
+        Cfg::fast(Kind::FO, 0.8, 2.0, 8, Degree::Linear),
+        Cfg::fft(Kind::XI, 3, 2, 10, 2),
+        Cfg::fft(Kind::XO, 2, 3, 10, 2),
+        Cfg::fft(Kind::XX, 3, 2, 12, 1),
+    ];
+    cfgs.extend(cfgs.clone().into_iter().map(|mut c| {
+        c.chunk = 1;
+        c
+    }));
+    let ops: Vec<&str> = vec!["P", "P", "rel_ramp", "P", "abs_step", "P", "chunk", "P", "W", "WP", "PP", "Z", "P", "bad_rel", "bad_chunk", "W"];
+    let (mut states, mut transitions) = (0u64, 0u64);
+    let mut found: Vec<Value> = Vec::new();
+    let mut outcomes: std::collections::BTreeSet<String> = Default::default();
+    for cfg in &cfgs {
+        let mut step = |r: &mut crate::any::Any<f64>, nch: usize, op: &str| -> String {
+            let res = catch_unwind(AssertUnwindSafe(|| -> String {
+                let show = |x: rubato::ResampleResult<(usize, usize)>| match x {
+                    Ok((i, o)) => format!("Ok({},{})", i, o),
+                    Err(e) => format!("Err({})", crate::run::ErrInfo::from(&e).variant),
+                };
+                let unit = |x: rubato::ResampleResult<()>| match x {
+                    Ok(()) => "Ok".to_string(),
+                    Err(e) => format!("Err({})", crate::run::ErrInfo::from(&e).variant),
+                };
+                match op {
+                    "P" => {
+                        let inp: Vec<Vec<f64>> = vec![vec![0.25; r.input_frames_next()]; nch];
+                        let mut out: Vec<Vec<f64>> = vec![vec![0.0; r.output_frames_next()]; nch];
+                        show(r.process_into_buffer(&inp, &mut out, None))
+                    }
+                    "W" => {
+                        let inp: Vec<Vec<f64>> = vec![vec![0.25; r.input_frames_next()]; nch];
+                        match r.process(&inp, None) {
+                            Ok(v) => format!("Ok({} channels)", v.len()),
+                            Err(e) => format!("Err({})", crate::run::ErrInfo::from(&e).variant),
+                        }
+                    }
+                    "WP" => match r.process_partial(None::<&[Vec<f64>]>, None) {
+                        Ok(v) => format!("Ok({} channels)", v.len()),
+                        Err(e) => format!("Err({})", crate::run::ErrInfo::from(&e).variant),
+                    },
+                    "PP" => {
+                        let inp: Vec<Vec<f64>> = vec![vec![0.25; r.input_frames_next() / 2]; nch];
+                        let mut out: Vec<Vec<f64>> = vec![vec![0.0; r.output_frames_next()]; nch];
+                        show(r.process_partial_into_buffer(Some(&inp), &mut out, None))
+                    }
+                    "rel_ramp" => unit(r.set_resample_ratio_relative(1.5, true)),
+                    "abs_step" => unit(r.set_resample_ratio(cfg.nominal_ratio() * 0.75, false)),
+                    "bad_rel" => unit(r.set_resample_ratio_relative(2.5, false)),
+                    "chunk" => unit(r.set_chunk_size((cfg.chunk / 2).max(1))),
+                    "bad_chunk" => unit(r.set_chunk_size(cfg.chunk + 1)),
+                    "Z" => {
+                        r.reset();
+                        "Ok".to_string()
+                    }
+                    _ => "?".to_string(),
+                }
+            }));
+            match res {
+                Ok(t) => t,
+                Err(_) => format!("PANIC({})", crate::run::classify(&crate::run::take_panic())),
+            }
+        };
+        let zero = cfg.clone().with_channels(0);
+        let built = catch_unwind(AssertUnwindSafe(|| (zero.build::<f64>(), cfg.build::<f64>())));
+        let (mut rz, mut r1) = match built {
+            Ok((Ok(a), Ok(b))) => (a, b),
+            Ok((Err(e), _)) | Ok((_, Err(e))) => {
+                // a constructor that refuses zero channels is fine; one that panics is not
+                if e.contains("panicked") {
+                    found.push(json!({"prop": prop, "sig": "zero-channels:constructor-panics", "detail": e, "cfg": zero.to_json(), "history": "", "sample_type": "f64", "point": "zero channels"}));
+                }
+                continue;
+            }
+            Err(_) => {
+                found.push(json!({"prop": prop, "sig": "zero-channels:constructor-panics", "detail": crate::run::take_panic(), "cfg": zero.to_json(), "history": "", "sample_type": "f64", "point": "zero channels"}));
+                continue;
+            }
+        };
+        states += 1;
+        let mut hist: Vec<String> = Vec::new();
+        for op in &ops {
+            let (a, b) = (step(&mut rz, 0, op), step(&mut r1, 1, op));
+            hist.push(op.to_string());
+            transitions += 2;
+            outcomes.insert(format!("{}:{}:{}", cfg.kind.name(), op, a.split('(').next().unwrap_or("")));
+            let same = a == b || (a.starts_with("Ok(") && b.starts_with("Ok(") && a.contains("channels"));
+            if !same && found.len() < 40 {
+                found.push(json!({"prop": prop, "sig": if a.starts_with("PANIC") { "zero-channels:panic" } else { "zero-channels:differs-from-one-channel-twin" },
+                    "detail": format!("after [{}]: with zero channels {}, with one channel {}", hist.join(" "), a, b), "cfg": zero.to_json(), "history": "", "sample_type": "f64", "point": "zero channels"}));
+            }
+            if a.starts_with("PANIC") {
+                break;
+            }
+        }
+    }
+    Ok(json!({
+        "label": "zero channels", "states": states, "transitions": transitions,
+        "outcomes": outcomes.iter().collect::<Vec<_>>(), "found": found,
+        "samples": [{"zero_channels": "18 configurations (all seven types, small and 1-frame chunks) x 16 operations (process_into_buffer, process, process_partial, both setters in and out of range, chunk size, reset) on empty channel lists, compared with a one-channel twin"}],
+    }))
+}
+
+/// Ratios of C10's chunk-size sweep (decimal fractions that are not exact in binary).
+const C10_SWEEP: [f64; 8] = [0.7, 1.4, 1.15, 0.35, 0.9, 1.1, 13.0 / 3.0, 44100.0 / 48000.0];
+
+/// C10: reset() in the fresh state and after one call, for every chunk size up to the limit:
+/// the constructor and reset() size their buffers with formulas that are written twice, and
+/// two ways of rounding the same quotient differ only at numeric coincidences between chunk
+/// size and ratio.
+fn c10_sweep_item(tier: Tier, ratio: f64, journal: Option<&JournalFile>) -> Result<Value, String> {
+    let max = if tier == Tier::Quick { 800 } else { 6000 };
+    let (mut states, mut transitions) = (0u64, 0u64);
+    let mut found: Vec<Value> = Vec::new();
+    for chunk in 1..=max {
+        for cfg in [
+            Cfg::fast(Kind::FI, ratio, 1.5, chunk, Degree::Linear),
+            Cfg::fast(Kind::FO, ratio, 1.5, chunk, Degree::Linear),
+            Cfg::sinc(Kind::SI, ratio, 1.5, chunk, 8, 2, Interp::Nearest, Kernel::Scalar),
+            Cfg::sinc(Kind::SO, ratio, 1.5, chunk, 8, 2, Interp::Nearest, Kernel::Scalar),
+        ] {
+            for hist in [vec![Op::Z], vec![Op::P, Op::Z], vec![Op::R(1.5, true), Op::Z]] {
+                if hist.len() > 1 && chunk % 7 != 0 && tier == Tier::Quick {
+                    continue;
+                }
+                if let Some(j) = journal {
+                    j.write(&cfg.to_json(), &history_text(&hist));
+                }
+                let mut t = Tracked::<f64>::new(&cfg, Signal::Noise, Props::only("C10"))?;
+                states += 1;
+                for (i, op) in hist.iter().enumerate() {
+                    let (_, viols) = t.step(*op, true);
+                    transitions += 1;
+                    for v in viols {
+                        if v.prop == "C10" && found.len() < 40 {
+                            found.push(json!({"prop": "C10", "sig": v.sig, "detail": v.detail, "cfg": cfg.to_json(), "history": history_text(&hist[..=i]), "sample_type": "f64"}));
+                        }
+                    }
+                }
+            }
+        }
+    }
+    Ok(json!({
+        "label": format!("reset sweep ratio {:?}", ratio), "states": states, "transitions": transitions,
+        "outcomes": [format!("sweep:{:?}", ratio)], "found": found,
+        "samples": [{"sweep": format!("ratio {:?}, chunk 1..={}, four asynchronous types, reset in the fresh state / after one call / with a ramp pending", ratio, max)}],
+    }))
+}
+
 /// C09: short cycles of operations repeated many times (bookkeeping that grows by one entry per
 /// cycle - a list that a reset forgets to clear, a counter that only ever rises - outgrows what
 /// was reserved at construction only after several rounds; two or three deviations never get
@@ -674,6 +855,53 @@ fn cycles_item(journal: Option<&JournalFile>) -> Result<Value, String> {
                     if t.dead() || !found.is_empty() && found.len() % 4 == 0 {
                         break 'rounds;
                     }
+                }
+            }
+        }
+    }
+    // the usual deployment: built on a setup thread, processed on another one (whatever was
+    // reserved per thread at construction is not there); with and without a first call on the
+    // constructing thread
+    for cfg in &cfgs {
+        for warm in [false, true] {
+            let mut t = Tracked::<f64>::new(cfg, Signal::Noise, Props::only("C09"))?;
+            let mut hist: Vec<Op> = Vec::new();
+            if warm {
+                let _ = t.step(Op::P, true);
+                hist.push(Op::P);
+            }
+            states += 1;
+            let all = (1u32 << cfg.channels) - 1;
+            let script = vec![Op::P, Op::PM(all & !1, true), Op::P, Op::Z, Op::P, Op::PP(Some(1)), Op::P];
+            let cfgj = cfg.to_json();
+            let h0 = hist.clone();
+            let res = std::thread::spawn(move || {
+                crate::run::install_panic_hook();
+                let mut out: Vec<(Vec<Op>, String, String)> = Vec::new();
+                let mut hist = h0;
+                let mut n = 0u64;
+                for op in script {
+                    let (_, viols) = t.step(op, true);
+                    hist.push(op);
+                    n += 1;
+                    for v in viols {
+                        if v.prop == "C09" {
+                            out.push((hist.clone(), v.sig, v.detail));
+                        }
+                    }
+                    if t.dead() {
+                        break;
+                    }
+                }
+                (out, n)
+            })
+            .join()
+            .map_err(|_| "migration thread panicked".to_string())?;
+            transitions += res.1;
+            outcomes.insert(format!("{}:migrated:{}", cfg.kind.name(), if res.0.is_empty() { "clean" } else { "heap" }));
+            for (h, sig, detail) in res.0 {
+                if found.len() < 60 {
+                    found.push(json!({"prop": "C09", "sig": format!("{}:after-moving-to-another-thread", sig), "detail": format!("{} (the resampler was built{} on another thread)", detail, if warm { " and called once" } else { "" }), "cfg": cfgj.clone(), "history": history_text(&h), "sample_type": "f64", "point": format!("migrated:{}", if warm { 1 } else { 0 })}));
                 }
             }
         }
@@ -784,12 +1012,18 @@ impl Check for CtrlCheck {
         "E1 explicit-state deviation-bounded exploration of call histories on the real resampler objects"
     }
     fn n_items(&self, tier: Tier) -> usize {
-        items(tier, self.id).len() + if self.id == "C13" || self.id == "C09" { 1 } else { 0 }
+        items(tier, self.id).len() + if self.id == "C13" || self.id == "C09" || self.id == "C03" { 1 } else if self.id == "C10" { C10_SWEEP.len() } else { 0 }
     }
     fn run_item(&self, tier: Tier, idx: usize, journal: Option<&JournalFile>) -> Result<Value, String> {
         let all = items(tier, self.id);
         if self.id == "C09" && idx == all.len() {
             return cycles_item(journal);
+        }
+        if self.id == "C03" && idx == all.len() {
+            return zero_channel_item("C03");
+        }
+        if self.id == "C10" && idx >= all.len() {
+            return c10_sweep_item(tier, C10_SWEEP[idx - all.len()], journal);
         }
         if self.id == "C13" && idx == all.len() {
             let (n1, mut f1, mut o1) = crate::ctor::run::<f64>("f64");
@@ -818,6 +1052,38 @@ impl Check for CtrlCheck {
                             "samples": [],
                         }));
                         continue;
+                    }
+                }
+            }
+            if self.id == "C04" && cfg.chunk < (1 << 20) {
+                // the allocation helpers embody the advertised maxima: every channel of an
+                // unfilled buffer has room for the maximum, every channel of a filled one holds it
+                if let Ok(r) = cfg.build::<f64>() {
+                    let (imax, omax) = (r.input_frames_max(), r.output_frames_max());
+                    let mut bad: Vec<String> = Vec::new();
+                    for (what, filled, buf, want) in [
+                        ("input_buffer_allocate(false)", false, r.input_buffer_allocate(false), imax),
+                        ("input_buffer_allocate(true)", true, r.input_buffer_allocate(true), imax),
+                        ("output_buffer_allocate(false)", false, r.output_buffer_allocate(false), omax),
+                        ("output_buffer_allocate(true)", true, r.output_buffer_allocate(true), omax),
+                    ] {
+                        if buf.len() != cfg.channels {
+                            bad.push(format!("{} has {} channels", what, buf.len()));
+                        }
+                        for (c, ch) in buf.iter().enumerate() {
+                            if ch.capacity() < want || (filled && ch.len() != want) || (!filled && !ch.is_empty()) {
+                                bad.push(format!("{}: channel {} has length {} and capacity {}, the advertised maximum is {}", what, c, ch.len(), ch.capacity(), want));
+                                break;
+                            }
+                        }
+                    }
+                    if !bad.is_empty() {
+                        merge(&mut acc, json!({
+                            "label": format!("{} f64", cfg.short()), "states": 1, "transitions": 4,
+                            "outcomes": ["allocate-bad"],
+                            "found": [{"prop": "C04", "sig": "allocated-buffer-smaller-than-advertised-maximum", "detail": bad.join("; "), "cfg": cfg.to_json(), "history": "", "sample_type": "f64"}],
+                            "samples": [],
+                        }));
                     }
                 }
             }
@@ -851,6 +1117,17 @@ impl Check for CtrlCheck {
                     };
                     let o = crate::explore::explore_sys(&spec, &mkq, jref).map_err(|e| format!("{}: {}", cfg.short(), e))?;
                     let mut oj = outcome_json(cfg, &o, "twin-quiet");
+                    oj["extra"] = json!({"worst_units": crate::twin::WORST.with(|w| w.replace(0.0)), "class": twin_class(cfg)});
+                    merge(&mut acc, oj);
+                }
+                // and on a signal at the bottom of the f32 range (peak 2^-120): explicitly
+                // selected kernels and every sixteenth of the other configurations
+                if cfg.chunk < 10_000 && (matches!(cfg.kernel, Kernel::Sse | Kernel::Avx | Kernel::Scalar) && cfg.kind.is_sinc() || (cfg.chunk + cfg.channels + cfg.filter_len()) % 16 == 0) {
+                    let mkt = || -> Result<Box<dyn crate::explore::Sys>, String> {
+                        Ok(Box::new(crate::twin::TwinSys::tiny(cfg)?))
+                    };
+                    let o = crate::explore::explore_sys(&spec, &mkt, jref).map_err(|e| format!("{}: {}", cfg.short(), e))?;
+                    let mut oj = outcome_json(cfg, &o, "twin-tiny");
                     oj["extra"] = json!({"worst_units": crate::twin::WORST.with(|w| w.replace(0.0)), "class": twin_class(cfg)});
                     merge(&mut acc, oj);
                 }
@@ -933,6 +1210,59 @@ impl Check for CtrlCheck {
         let spec = spec_for(self.id, Tier::Quick, &cfg);
         let mut log = String::new();
         let mut bad = false;
+        if let Some(k) = replay.get("point").and_then(|x| x.as_str()).and_then(|p| p.strip_prefix("migrated:")).and_then(|k| k.parse::<usize>().ok()) {
+            // the first k operations on this thread, the rest on a fresh one
+            let mut t = Tracked::<f64>::new(&cfg, Signal::Noise, spec.props)?;
+            let k = k.min(hist.len());
+            for op in &hist[..k] {
+                let _ = t.step(*op, true);
+            }
+            let rest: Vec<Op> = hist[k..].to_vec();
+            let id = self.id;
+            let (bad, log) = std::thread::spawn(move || {
+                crate::run::install_panic_hook();
+                let mut log = String::new();
+                let mut bad = false;
+                for op in rest {
+                    let (obs, viols) = t.step(op, true);
+                    log.push_str(&format!("  (other thread) {:14} -> {}\n", op.text(), obs.res.text()));
+                    for v in viols {
+                        if v.prop == id {
+                            bad = true;
+                            log.push_str(&format!("    VIOLATES {} [{}] {}\n", v.prop, v.sig, v.detail));
+                        }
+                    }
+                    if t.dead() {
+                        break;
+                    }
+                }
+                (bad, log)
+            })
+            .join()
+            .map_err(|_| "migration thread panicked".to_string())?;
+            return Ok((bad, log));
+        }
+        if replay.get("point").and_then(|x| x.as_str()) == Some("zero channels") {
+            let v = zero_channel_item(self.id)?;
+            let hit = v["found"].as_array().map(|a| a.iter().any(|f| f["sig"] == sig && f["cfg"] == replay["cfg"])).unwrap_or(false);
+            return Ok((hit, if hit { format!("    VIOLATES {} [{}] (zero-channel walk)\n", self.id, sig) } else { "  the zero-channel walk finds nothing for this configuration\n".to_string() }));
+        }
+        if self.id == "C04" && sig == "allocated-buffer-smaller-than-advertised-maximum" {
+            let r = cfg.build::<f64>()?;
+            let (imax, omax) = (r.input_frames_max(), r.output_frames_max());
+            let mut bad = false;
+            let mut log = String::new();
+            for (what, buf, want) in [("input_buffer_allocate(false)", r.input_buffer_allocate(false), imax), ("output_buffer_allocate(false)", r.output_buffer_allocate(false), omax), ("input_buffer_allocate(true)", r.input_buffer_allocate(true), imax), ("output_buffer_allocate(true)", r.output_buffer_allocate(true), omax)] {
+                for (c, ch) in buf.iter().enumerate() {
+                    log.push_str(&format!("  {} channel {}: length {} capacity {} (maximum {})\n", what, c, ch.len(), ch.capacity(), want));
+                    if ch.capacity() < want {
+                        bad = true;
+                        log.push_str("    VIOLATES C04 [allocated-buffer-smaller-than-advertised-maximum]\n");
+                    }
+                }
+            }
+            return Ok((bad, log));
+        }
         if self.id == "C03" && sig.starts_with("panic-in-constructor") {
             return Ok(match crate::run::Runner::<f64>::new(&cfg, Signal::Noise) {
                 Err(e) if e.contains("constructor panicked") => (true, format!("    VIOLATES C03 [{}] {}\n", sig, e)),
@@ -940,7 +1270,9 @@ impl Check for CtrlCheck {
             });
         }
         let make = || -> Result<Box<dyn crate::explore::Sys>, String> {
-            Ok(if self.id == "C17" && ty == "twin-quiet" {
+            Ok(if self.id == "C17" && ty == "twin-tiny" {
+                Box::new(crate::twin::TwinSys::tiny(&cfg)?)
+            } else if self.id == "C17" && ty == "twin-quiet" {
                 Box::new(crate::twin::TwinSys::quiet(&cfg)?)
             } else if self.id == "C17" {
                 Box::new(crate::twin::TwinSys::new(&cfg)?)
